@@ -30,12 +30,17 @@ Out(plan, vp) == IF vp \in DOMAIN plan THEN plan[vp] ELSE DfltOut
 RECURSIVE FlatErrs(_, _)
 FlatErrs(rs, i) == IF i > Len(rs) THEN <<>> ELSE rs[i].errs \o FlatErrs(rs, i + 1)
 
+RECURSIVE UnionDinfo(_, _)
+UnionDinfo(rs, i) == IF i > Len(rs) THEN {} ELSE rs[i].dinfo \cup UnionDinfo(rs, i + 1)
+
 RECURSIVE UnionPos(_, _)
 UnionPos(rs, i) == IF i > Len(rs) THEN {} ELSE rs[i].pos \cup UnionPos(rs, i + 1)
 
 (***************************************************************************)
 (* CollectFields (spec 6.3.2).  S is the schema record, tn the concrete    *)
-(* object type.  A collected field is [alias, name, sels, dfr, label].     *)
+(* object type.  A collected field is [alias, name, sels, dfr, label, dl]: *)
+(* dl is the set of labels of the deferred fragments the field was         *)
+(* collected under (empty when it is not under any).                       *)
 (***************************************************************************)
 Matches(S, tn, cond) == cond = "" \/ \E i \in 1..Len(S.types[tn].impl) : S.types[tn].impl[i] = cond
 
@@ -45,6 +50,7 @@ AddField(fs, f, i) ==
   ELSE IF fs[i].alias = f.alias
        THEN [fs EXCEPT ![i] = [@ EXCEPT !.sels = @ \o f.sels,
                                         !.dfr = (@ \/ f.dfr) ,
+                                        !.dl = @ \cup f.dl,
                                         !.label = IF f.dfr THEN f.label ELSE @]]
        ELSE AddField(fs, f, i + 1)
 
@@ -52,7 +58,7 @@ RECURSIVE MergeAll(_, _, _)
 MergeAll(fs, gs, i) == IF i > Len(gs) THEN fs ELSE MergeAll(AddField(fs, gs[i], 1), gs, i + 1)
 
 RECURSIVE MarkAll(_, _, _)
-MarkAll(gs, s, i) == IF i > Len(gs) THEN <<>> ELSE <<[gs[i] EXCEPT !.dfr = TRUE, !.label = s.label]>> \o MarkAll(gs, s, i + 1)
+MarkAll(gs, s, i) == IF i > Len(gs) THEN <<>> ELSE <<[gs[i] EXCEPT !.dfr = TRUE, !.label = s.label, !.dl = @ \cup {s.label}]>> \o MarkAll(gs, s, i + 1)
 MarkDefer(gs, s) == IF s.dfr THEN MarkAll(gs, s, 1) ELSE gs
 
 RECURSIVE Collect(_, _, _, _, _)
@@ -64,7 +70,7 @@ Collect(S, tn, sels, acc, frags) ==
        IN  IF s.k = "field" THEN
              Collect(S, tn, rest,
                      (IF inc THEN [acc EXCEPT !.fs = AddField(@, [alias |-> s.alias, name |-> s.name,
-                                                                   sels |-> s.sels, dfr |-> FALSE, label |-> "",
+                                                                   sels |-> s.sels, dfr |-> FALSE, label |-> "", dl |-> {}, qdirs |-> s.qdirs,
                                                                    afault |-> s.afault, aname |-> s.aname], 1)]
                       ELSE acc), frags)
            ELSE IF s.k = "inline" THEN
@@ -95,7 +101,7 @@ IsNN(w) == w # <<>> /\ Head(w) = "N"
 StripNN(w) == IF IsNN(w) THEN Tail(w) ELSE w
 
 Fail(rp, c, started) == [d |-> Null, isnull |-> TRUE, errs |-> <<[p |-> rp, c |-> c]>>,
-                         pos |-> IF started THEN {rp} ELSE {}]
+                         pos |-> IF started THEN {rp} ELSE {}, dinfo |-> {}]
 
 RECURSIVE ExecSel(_, _, _, _, _), Complete(_, _, _, _, _, _, _), ExecField(_, _, _, _, _), Chain(_, _, _, _, _, _)
 RECURSIVE ExecAll(_, _, _, _, _, _), ElemAll(_, _, _, _, _, _, _, _)
@@ -124,7 +130,10 @@ ExecSel(C, tn, sels, rp, vp) ==
                   ELSE [t |-> "o", f |-> ObjFields(cf, rs, 1)],
        isnull |-> bad,
        errs   |-> FlatErrs(rs, 1),
-       pos    |-> UnionPos(rs, 1)]
+       pos    |-> UnionPos(rs, 1),
+       \* which response keys of which object may be delivered under which @defer label
+       dinfo  |-> UnionDinfo(rs, 1) \cup
+                  UNION {{[p |-> rp, k |-> cf[i].alias, l |-> x] : x \in cf[i].dl} : i \in 1..Len(cf)}]
 
 \* The value of a position whose outcome is o (never err/panic here).
 Complete(C, w0, tname, o, sels, rp, vp) ==
@@ -134,20 +143,20 @@ Complete(C, w0, tname, o, sels, rp, vp) ==
       \* (Go binding: a nil slice in a NON-NULL list position is the empty list,
       \*  there is no other way to spell an empty list result in Go; handled below)
       THEN [d |-> Null, isnull |-> TRUE,
-            errs |-> IF nn THEN <<[p |-> rp, c |-> "nonnull"]>> ELSE <<>>, pos |-> {}]
+            errs |-> IF nn THEN <<[p |-> rp, c |-> "nonnull"]>> ELSE <<>>, pos |-> {}, dinfo |-> {}]
       ELSE IF w # <<>> /\ Head(w) = "L"
       THEN LET n   == IF o.k = "list" THEN o.n ELSE IF o.k = "null" THEN 0 ELSE 2
                ew  == Tail(w)
                es  == ElemAll(C, ew, tname, sels, rp, vp, 1, n)
                bad == IsNN(ew) /\ \E i \in 1..n : es[i].isnull
            IN  [d |-> IF bad THEN Null ELSE [t |-> "l", e |-> ListElems(es, 1)],
-                isnull |-> bad, errs |-> FlatErrs(es, 1), pos |-> UnionPos(es, 1)]
+                isnull |-> bad, errs |-> FlatErrs(es, 1), pos |-> UnionPos(es, 1), dinfo |-> UnionDinfo(es, 1)]
       ELSE LET kind == C.S.types[tname].kind
            IN  IF kind \in {"SCALAR", "ENUM"}
                THEN [d |-> [t |-> ScalarTag(tname),
                             v |-> IF o.k = "val" THEN o.v
                                   ELSE IF C.S.types[tname].dflt # "" THEN C.S.types[tname].dflt ELSE vp],
-                     isnull |-> FALSE, errs |-> <<>>, pos |-> {}]
+                     isnull |-> FALSE, errs |-> <<>>, pos |-> {}, dinfo |-> {}]
                ELSE LET ct == IF kind = "OBJECT" THEN tname
                               ELSE IF o.ty # "" THEN o.ty ELSE C.S.types[tname].possible[1]
                     IN  ExecSel(C, ct, sels, rp, vp)
@@ -166,7 +175,7 @@ Chain(C, fd, ds, f, rp, vp) ==
            ELSE IF how = "panic" THEN Fail(rp, "panic", FALSE)
            ELSE IF how = "null"
                 THEN [d |-> Null, isnull |-> TRUE,
-                      errs |-> IF IsNN(fd.wrap) THEN <<[p |-> rp, c |-> "nonnull"]>> ELSE <<>>, pos |-> {}]
+                      errs |-> IF IsNN(fd.wrap) THEN <<[p |-> rp, c |-> "nonnull"]>> ELSE <<>>, pos |-> {}, dinfo |-> {}]
            ELSE Chain(C, fd, Tail(ds), f, rp, vp)
 
 Reverse(s) == [i \in 1..Len(s) |-> s[Len(s) + 1 - i]]
@@ -176,31 +185,44 @@ Reverse(s) == [i \in 1..Len(s) |-> s[Len(s) + 1 - i]]
 \* (C04): an error or panic there fails the field like a resolver failure.
 IntHow(C, rp, tag) == IF (rp \o "@" \o tag) \in DOMAIN C.dirplan THEN C.dirplan[rp \o "@" \o tag] ELSE "pass"
 
+\* Executable directives applied to the field in the operation (location FIELD) are
+\* user code around the field as well; the first one (in nesting order) that does not
+\* pass decides: "err" fails the field, "null" yields null without running the rest.
+RECURSIVE QHow(_, _, _)
+QHow(C, rp, qs) ==
+  IF qs = <<>> THEN "pass"
+  ELSE LET h == IntHow(C, rp, Head(qs)) IN IF h = "pass" THEN QHow(C, rp, Tail(qs)) ELSE h
+
 ExecField(C, tn, f, rp, vp) ==
   IF f.name = "__typename"
-  THEN [d |-> [t |-> "s", v |-> tn], isnull |-> FALSE, nn |-> TRUE, errs |-> <<>>, pos |-> {}]
+  THEN [d |-> [t |-> "s", v |-> tn], isnull |-> FALSE, nn |-> TRUE, errs |-> <<>>, pos |-> {}, dinfo |-> {}]
   ELSE LET fd  == C.S.types[tn].fields[f.name]
            rp2 == Join(rp, f.alias)
            rh  == IF rp = "" THEN IntHow(C, rp2, "#r") ELSE "pass"
            fh  == IntHow(C, rp2, "#f")
-           bad == IF rh = "panic" THEN "panic" ELSE IF fh = "err" THEN "int" ELSE IF fh = "panic" THEN "panic" ELSE ""
+           qh  == QHow(C, rp2, IF C.dord = "rev" THEN Reverse(f.qdirs) ELSE f.qdirs)
+           bad == IF rh = "panic" THEN "panic" ELSE IF fh = "err" THEN "int" ELSE IF fh = "panic" THEN "panic"
+                  ELSE IF qh = "err" THEN "dir" ELSE IF qh = "panic" THEN "panic" ELSE ""
        IN  IF f.afault # ""
            \* an input unmarshaler of this field's arguments failed: an error is
            \* reported at the argument's path, a panic (recovered) at the field's path;
            \* neither interceptors, directives nor the resolver run
            THEN [d |-> Null, isnull |-> TRUE, nn |-> IsNN(fd.wrap),
                  errs |-> <<[p |-> IF f.afault = "err" THEN Join(rp2, f.aname) ELSE rp2, c |-> f.afault]>>,
-                 pos |-> {}]
+                 pos |-> {}, dinfo |-> {}]
            ELSE IF bad # ""
            THEN [d |-> Null, isnull |-> TRUE, nn |-> IsNN(fd.wrap),
-                 errs |-> <<[p |-> rp2, c |-> bad]>>, pos |-> {}]
+                 errs |-> <<[p |-> rp2, c |-> bad]>>, pos |-> {}, dinfo |-> {}]
+           ELSE IF qh = "null"
+           THEN [d |-> Null, isnull |-> TRUE, nn |-> IsNN(fd.wrap),
+                 errs |-> IF IsNN(fd.wrap) THEN <<[p |-> rp2, c |-> "nonnull"]>> ELSE <<>>, pos |-> {}, dinfo |-> {}]
            ELSE IF fd.res
            THEN LET ds == IF C.dord = "rev" THEN Reverse(fd.dirs) ELSE fd.dirs
                     r  == Chain(C, fd, ds, f, rp2, rp2)
-                IN  [d |-> r.d, isnull |-> r.isnull, nn |-> IsNN(fd.wrap), errs |-> r.errs, pos |-> r.pos]
+                IN  [d |-> r.d, isnull |-> r.isnull, nn |-> IsNN(fd.wrap), errs |-> r.errs, pos |-> r.pos, dinfo |-> r.dinfo]
            ELSE LET vp2 == Join(vp, f.name)
                     r   == Complete(C, fd.wrap, fd.name, Out(C.plan, vp2), f.sels, rp2, vp2)
-                IN  [d |-> r.d, isnull |-> r.isnull, nn |-> IsNN(fd.wrap), errs |-> r.errs, pos |-> r.pos]
+                IN  [d |-> r.d, isnull |-> r.isnull, nn |-> IsNN(fd.wrap), errs |-> r.errs, pos |-> r.pos, dinfo |-> r.dinfo]
 
 RootType(S, kind) == S.roots[kind]
 
